@@ -26,6 +26,9 @@ def label(v, depth=0):
     if k == "atom":
         return "read#%d" % v[1]
     if k == "cast":
+        # widening of a value that was read (at most 64 bits) to usize/u64 preserves it
+        if v[2] in (("prim", "usize"), ("prim", "u64")) and isinstance(v[1], tuple) and v[1] and v[1][0] in ("atom", "tryok", "unwrapped"):
+            return label(v[1], depth + 1)
         return "%s as %s" % (label(v[1], depth + 1), ty_str(v[2]))
     if k in ("tryok", "unwrapped", "into"):
         return label(v[1], depth + 1)
